@@ -1049,7 +1049,10 @@ class Rtpg(Format):
         g = []
         for _ in range(counts(rng, mode)):
             d = gen_struct(self.D, rng, skip=("target_port_count",))
-            np = rng.choice([0, 1, 2, 4])
+            # TARGET PORT COUNT is a full byte: mostly small groups, now and then one that needs the high bits of the count
+            # (seed C04-31 masked the count to 7 bits; groups of <= 4 ports never noticed)
+            # (not in the "count" modes: those make thousands of groups for the scaling measurements of C11)
+            np = rng.choice([0, 1, 2, 4] if isinstance(mode, tuple) else [0, 1, 2, 4, 0, 1, 2, 4, 0, 1, 2, 4, 127, 128, 130, 255, rng.randrange(256)])
             d["target_port_count"] = np
             d["target_ports"] = [{"relative_target_port_id": gen.rand_value(rng, 16)} for _ in range(np)]
             g.append(d)
